@@ -46,7 +46,7 @@ def run_on(repo, prop):
     class P:
         def __call__(self, name):
             if name not in cache:
-                cache[name] = pdbmod.PDB(pdbmod.build(repo, name, use_cache=False))
+                cache[name] = pdbmod.PDB(pdbmod.prepare(pdbmod.build(repo, name, use_cache=False)))
             return cache[name]
 
         def loaded(self):
